@@ -460,7 +460,7 @@ Proof.
     apply vgood_finish, vgood_ret, same_v_put. intros k0 Hk0 Hv. rewrite Hg in Hk0. injection Hk0 as <-. split; [exact Hv|reflexivity].
   - destruct (true && is_dtor a); [exact I|]. destruct (find_call u (s_calls s)); [exact I|].
     destruct (is_dtor a); [destruct (_ && _); [|exact I]|]; apply vgood_on_conn; intros k Hg Hn; apply vgood_ret, same_v_conns; reflexivity.
-  - destruct (find_call u (s_calls s)) as [a|]; [|exact I]. destruct (a_stored a); [exact I|].
+  - destruct (find_call u (s_calls s)) as [a|] eqn:Hf; [|exact I]. destruct (a_stored a); [exact I|].
     destruct (getc s (a_conn a)) as [k|] eqn:Hg; [|exact I].
     destruct (is_dtor (a_api a)).
     { apply vgood_move.
@@ -473,7 +473,7 @@ Proof.
     apply (vmove_put _ (a_conn a) k _ LDisc Hg). intros Hv.
     assert (Hcl : k_closable k = true).
     { (* a call in progress is on a connection that is not kConnecting, and the store does not overwrite kDisconnected *)
-      match goal with Hf : find_call u (s_calls s) = Some a |- _ => destruct (find_call_some _ _ _ Hf) as [Hin _] end.
+      destruct (find_call_some _ _ _ Hf) as [Hin _].
       destruct (proj2 (gi_calls s G) a Hin) as (k1 & Hk1 & _ & Hnc & _). rewrite Hg in Hk1. injection Hk1 as <-.
       unfold k_closable. destruct (k_st k); try reflexivity; congruence. }
     apply (disc_step k Hcl Hv).
@@ -600,7 +600,7 @@ Theorem S02_H3_beyond_set_ok : forall s u a k r s' obs,
   k_st k <> Connecting -> step true s (XStore u) = Ok (s', obs) ->
   forall cm reqs tm, st cm = k_st k ->
   Conn_Race.set_ok (mkX cm (mkReq u r (a_loaded a) false :: reqs) tm) (Conn_Model.XSet u) \/
-  (a_loaded a = true /\ a_api a = AShutdown /\ k_st k = Disconnecting /\ forall c, getc s' c = getc s c).
+  (a_loaded a = true /\ a_api a = AShutdown /\ k_st k = Disconnecting).
 Proof.
   intros s u a k r s' obs Hf Hns Hg Hr Hnc H cm reqs tm Hst.
   assert (Hd : is_dtor (a_api a) = false) by (destruct (a_api a); try reflexivity; discriminate Hr).
@@ -613,11 +613,7 @@ Proof.
     + right. unfold api_test, k_closable in Et.
       assert (Ek : a_api a = AShutdown /\ k_st k = Disconnecting).
       { destruct (a_api a); try discriminate Hr; destruct (k_st k); try discriminate Et; try congruence; auto. }
-      destruct Ek as [Ea Ek]. repeat (split; [assumption || reflexivity|]). rewrite Ea in H. cbn [api_stores andb ret] in H. injection H as <- _.
-      intros c. unfold getc, put, set_calls, set_conns. cbn [s_conns]. destruct (Nat.eq_dec (a_conn a) c) as [<-|Hn].
-      * fold (getc s (a_conn a)). rewrite Hg. rewrite nth_upd_eq by (eapply getc_lt, Hg). f_equal.
-        destruct k; cbn in *. subst. reflexivity.
-      * apply nth_upd_neq, Hn.
+      destruct Ek as [Ea Ek]. auto.
   - left. unfold Conn_Race.set_ok. cbn [xreqs find_req rq_thread]. rewrite Nat.eqb_refl. cbn [rq_passed]. intros Hx. discriminate Hx.
 Qed.
 
